@@ -745,7 +745,7 @@ class World:
                 kw['cache'] = True
                 c = op.get('c', 0)
                 if c >= 0:
-                    kw['cache_path'] = self.cdir(c)
+                    kw['cache_path'] = os.fspath(self.cdir(c)) if op.get('strpath') else self.cdir(c)
             if mode in ('diff', 'cache+diff'):
                 kw['diff_cache'] = True
             try:
